@@ -86,6 +86,9 @@ def _default_ok(cc, node, value):
     want = specs.realize(d["value"])
     if node["kind"] == "challenge":
         return value_eq(value, DigestMarker(want))
+    if node["kind"] == "list" and node.get("item") and node["item"]["kind"] == "any":
+        # items are not validated; a list default is wrapped in a proxy, a tuple default is exposed as it is
+        return value is not None and value_eq(list(value), list(want))
     if node["kind"] == "list" and node.get("item"):
         return isinstance(value, cc.ListProxy) and value_eq(value, list(want))
     if node["kind"] == "dict" and (node.get("keyf") or node.get("valuef")):
